@@ -386,6 +386,7 @@ PROPS['C16'] = dict(
     level='model_checking',
     mc=[dict(module='DirLock', name='MC_DirLock', cfg=DIRLOCK_CFG, consts={}, workers=8, timeout=1200, xmx='8g',
              quick=dict(Openers='{"p1g0", "p1g1", "p2g0", "p3g0"}', MaxSteps=8), thorough=dict(Openers='{"p1g0", "p1g1", "p2g0", "p2g1", "p3g0", "p3g1"}', MaxSteps=10))],
+    proofs=[dict(module='DirLockProof', theorem='Spec => [](LockReleased /\\ HolderIsOpener) for any number of openers and steps (inductive invariant TypeOK /\\ Excl /\\ Held)')],
     traces=[dict(profile='dirlock', spec='DirLockTrace', enforce=['lock'], sig=lock_sig, deterministic=False,
                  quick_seeds=1, thorough_seeds=2)],
     rule='distinct (attempt kind, result, goroutine slot) tuples, distinct racing groups by (size, result set), directory damage/repair events; trivial = none',
